@@ -230,6 +230,54 @@ def shrink(binary, prop, rec, finding, rounds=12):
     return cur, curf
 
 
+def idlock_obligation(chk, prop):
+    """Start and LogIn take the per-ID lock for the presented ID and release it
+    by defer, and nothing else uses the lock manager (Gen/SessShape.v,
+    regenerated from the source). Returns True if the obligation holds."""
+    ok, log_, _ = vlib.coq_build(["Properties/Shape"])
+    res = vlib.print_assumptions("Properties.Shape", ["idlock_uses_pinned"])[0] if ok else None
+    good = bool(res) and res.get("idlock_uses_pinned") == "Closed under the global context"
+    chk.oblige("idlock_uses_pinned: Start and LogIn lock the session ID and unlock by defer; no other use of the per-ID lock (Gen/SessShape.v)", good)
+    if not good:
+        try:
+            gen = open(os.path.join(vlib.COQ, "Gen", "SessShape.v")).read()
+            uses = gen[gen.index("Definition idlock_uses"):][:1500]
+        except (OSError, ValueError):
+            uses = ""
+        chk.violation({"property": prop, "no_longer_checks": "Properties/Shape.v: idlock_uses_pinned - the per-ID lock is no longer taken and released (by defer) around Start's lookup-validate-rotate step and LogIn's ID change as the proofs assume",
+                       "current_uses": uses, "log": log_[-1500:]}, no_input=True)
+    return good
+
+
+def granularity_obligation(chk, prop):
+    """cache_ops_atomic / cache_ops_covered over Gen/Access.v plus the probe on
+    the real code (family gran). For checks outside run_property."""
+    gok, glog, _ = vlib.coq_build(["Properties/Granularity"])
+    gres = vlib.print_assumptions("Properties.Granularity", ["cache_ops_atomic", "cache_ops_covered"])[0] if gok else None
+    good = True
+    for tname in ("cache_ops_atomic", "cache_ops_covered"):
+        g = bool(gres) and gres.get(tname) == "Closed under the global context"
+        chk.oblige("granularity: " + tname, g)
+        good = good and g
+    binary, _ = vlib.build_harness()
+    if binary:
+        gp = os.path.join(vlib.BUILD, "gran-%s-%d.jsonl" % (prop, os.getpid()))
+        grc, gout = vlib.run_harness(binary, "gran", gp, seed=chk.seed, n=1)
+        grecs = vlib.read_jsonl(gp) if grc == 0 else []
+        with contextlib.suppress(OSError):
+            os.remove(gp)
+        gbad = [r for r in grecs if r.get("unlocked") or r.get("violations") or r.get("error")]
+        chk.oblige("granularity probe on the real code (%d scenarios)" % len(grecs), grc == 0 and not gbad)
+        for r in gbad[:1]:
+            cons = r.get("violations") or []
+            chk.violation({"property": prop, "what": (cons[0] if cons else "a persistence call inside a cache operation is made while the cache mutex is free") + " - " + "; ".join((r.get("unlocked") or [])[:3]),
+                           "scenario": r["case"], "unlocked_calls": r.get("unlocked"), "consequences": cons, "replay": "harness family gran"})
+            return False
+    if not good:
+        chk.violation({"property": prop, "no_longer_checks": "Properties/Granularity.v: cache_ops_atomic over the regenerated Gen/Access.v", "log": glog[-1500:]}, no_input=True)
+    return good
+
+
 def run_property(chk, prop, note=None):
     t0 = time.time()
     thorough = chk.tier == "thorough"
